@@ -153,6 +153,9 @@ fn robustness_script(t: &mut Tape) -> Script {
         s.service_url = gen_junk_url(t);
         s.junk_service_url = true;
     }
+    if t.chance(1, 4) {
+        s.content_type_mask = t.raw();
+    }
     // policy answers at the edge of their types: minimum waits that stand for 'for ever'
     for k in 0..s.timings.len() {
         if t.chance(1, 6) {
